@@ -182,6 +182,16 @@ def progress_rule(run, rn, outer):
         for site, did in incs:
             counted.setdefault(did, []).append(site)
         good = [did for did, sites in counted.items() if ers and all(q.must_follow(own, e, sites) for e in ers)]
+        # the count a spliced helper returns (`fired = fire_expired_timers()`) is the helper's own counter
+        for n_ in own.all_nodes():
+            if n_['k'] == 'decl':
+                for v_ in n_['vars']:
+                    i0 = q.strip_casts(v_.get('init')) if v_.get('init') is not None else None
+                    if is_node(i0) and i0['k'] == 'call' and i0.get('inlined') and is_node(i0.get('inl')):
+                        irs = [x for x in __import__('simlib').walk(i0['inl']) if x['k'] == 'ireturn' and x.get('e') is not None]
+                        if irs and all(q.int_value(x['e']) == 0 or (q.strip_casts(x['e']).get('k') == 'ref' and q.strip_casts(x['e']).get('did') in good) for x in irs) and any(q.strip_casts(x['e']).get('did') in good for x in irs):
+                            good.append(v_['did'])
+                            counted.setdefault(v_['did'], []).append(n_)
         # a per-round counter that is added to another variable afterwards on every path carries the count over
         for _ in range(2):
             for n_ in own.all_nodes():
